@@ -33,13 +33,14 @@ def run(ctx):
 
     OPTS = {"show_progress": False}
 
-    def solve(entry, pr, rng, sparse=False, kkt=None, start="none", opts=None, backend=None, operators=False):
+    def solve(entry, pr, rng, sparse=False, kkt=None, start="none", opts=None, backend=None, operators=False, mixed=None):
         isqp = pr.P is not None
+        sG, sA, sP = mixed if mixed is not None else (sparse, sparse, sparse)
         if entry in ("conelp", "coneqp"):
-            args = sr.cvx_args(pr, rng, sparseG=sparse, sparseA=sparse, sparseP=sparse)
+            args = sr.cvx_args(pr, rng, sparseG=sG, sparseA=sA, sparseP=sP)
         else:
             if isqp:
-                args = sr.cvx_args(pr, rng, sparseG=sparse, sparseA=sparse, sparseP=sparse)
+                args = sr.cvx_args(pr, rng, sparseG=sG, sparseA=sA, sparseP=sP)
             else:
                 args = sr.wrapper_args(entry, pr, rng, sparse=sparse)
         ps = ds = None
@@ -266,7 +267,11 @@ def run(ctx):
         name = t
         prB, alpha, ext, map_x = pr, 1.0, False, None
         if t == "storage":
-            solB, excB = solve(entry, pr, rng, sparse=True)
+            # every mix of sparse/dense G, A (and P): the KKT factories have separate branches per combination
+            combos = [(True, True, True), (True, False, True), (False, True, False), (True, False, False), (True, True, False), (False, False, True)]
+            mx = combos[rng.randrange(len(combos))]
+            name = "storage:G%sA%sP%s" % tuple("s" if b_ else "d" for b_ in mx)
+            solB, excB = solve(entry, pr, rng, mixed=mx)
         elif t == "kktsolver":
             names = (["ldl", "ldl2", "chol"] + ([] if isqp else ["qr"]) + ([] if (d.q or d.s) else ["chol2"]))
             nm = rng.choice(names); name = "kktsolver:" + nm
